@@ -56,10 +56,16 @@ func buildClasses() (out []lineClass) {
 		if c.text == "" {
 			out = append(out, lineClass{"text-only", "foo: bar", ""})
 			out = append(out, lineClass{"empty", "", ""})
+			out = append(out, lineClass{"text-with-tabs", "\tfoo:\tbar", ""})
+			out = append(out, lineClass{"text-with-cr", "foo: bar\rbaz: 1", ""})
+			out = append(out, lineClass{"text-crlf", "foo: bar\r", ""})
 			continue
 		}
 		out = append(out, lineClass{c.name + "@0", c.text, c.kind})
 		out = append(out, lineClass{c.name + "@text", "foo: bar " + c.text, c.kind})
+		if c.kind == "line" || c.kind == "" && c.name == "disable" {
+			out = append(out, lineClass{c.name + "@tabtext", "\tfoo:\tbar\r " + c.text, c.kind})
+		}
 	}
 	return out
 }
@@ -129,7 +135,7 @@ func machine(c *explore.Chooser) *explore.Case {
 	start := mstate{ref: refNormal}
 	seen[start] = nil
 	queue := []node{{start, nil}}
-	blankOf := func(s string) bool { return strings.TrimSpace(s) == "" }
+	blankOf := func(s string) bool { return strings.Trim(s, " ") == "" } // spaces only: tabs and CRs are YAML-significant
 	for len(queue) > 0 {
 		n := queue[0]
 		queue = queue[1:]
@@ -199,7 +205,7 @@ func machine(c *explore.Chooser) *explore.Case {
 		if i := strings.Index(last, "#"); i >= 0 && !hasRuleComment(last[i:]) {
 			last = last[:i] + strings.Repeat(" ", len(last)-i)
 		}
-		if len(parts) != 2 || strings.TrimSpace(last) != "" || len(parts[1]) != len(cl.text) {
+		if len(parts) != 2 || strings.Trim(last, " ") != "" || len(parts[1]) != len(cl.text) {
 			cs.Violate("machine: unterminated excluded last line class="+cl.name, fmt.Sprintf("excluded unterminated last line %q came out as %q", cl.text, parts[len(parts)-1]), ci)
 		}
 		cs.Count("transitions", 1)
@@ -259,10 +265,13 @@ var payloads = []string{
 	"{% raw %} # pint file/disable promql/regexp",
 	"{% raw %} # pint ignore/begin",
 	"  expr: up{job=~\"y\"}",
+	"\t- : [ broken",
+	"{% a %}\r{% b %}",
+	"\tfoo:\tbar # pint disable promql/regexp",
 }
 
 // payloads usable before a trailing "# pint ignore/line" (no '#')
-var inlinePayloads = []string{"{% set x = 1 %}", "  - : [ broken", "- record: evil", "  expr: up"}
+var inlinePayloads = []string{"{% set x = 1 %}", "  - : [ broken", "- record: evil", "  expr: up", "\tx:\ty", "{% a %}\r{% b %}"}
 
 type obs struct {
 	Rules   []string
